@@ -52,12 +52,12 @@ theorem nonce_run_of_every_reachable_pool (U : Bytes → Tx) (cfg : Config) (ops
 /-! ### tie by translation: the source's own leaf logic (regenerated into SV/Generated/Funcs.lean on every run) IS the model's -/
 theorem source_detectors_are_the_models (s : Session) (consumed : Bytes → Nat) (it : HItem) :
     classify s consumed it =
-      (if Gen.initialGap it.latest.isNone it.cur.nonce (s.nonce it.cur.sender) then .dropSender
-       else if Gen.middleGap it.latest.isNone it.cur.nonce (it.latest.getD 0 : Nat) then .dropSender
-       else if Gen.feeExceedsBalance it.cur.fee false 0 0 (consumed it.cur.payer) (s.balance it.cur.payer) then .dropSender
-       else if Gen.lowerNonce it.cur.nonce (s.nonce it.cur.sender) then .skipTx
+      (if Gen.initialGap (item_latestSelectedTransaction_nil := it.latest.isNone) (item_currentTransactionNonce := it.cur.nonce) (senderNonce := (s.nonce it.cur.sender)) then .dropSender
+       else if Gen.middleGap (item_latestSelectedTransaction_nil := it.latest.isNone) (item_currentTransactionNonce := it.cur.nonce) (item_latestSelectedTransactionNonce := (it.latest.getD 0 : Nat)) then .dropSender
+       else if Gen.feeExceedsBalance (tx_Fee := it.cur.fee) (fee_nil := false) (tx_FeePayer := 0) (sessionWrapper_getAccountRecord_feePayer := 0) (feePayerRecord_consumedBalance := (consumed it.cur.payer)) (feePayerRecord_initialBalance := (s.balance it.cur.payer)) then .dropSender
+       else if Gen.lowerNonce (item_currentTransactionNonce := it.cur.nonce) (senderNonce := (s.nonce it.cur.sender)) then .skipTx
        else if s.badGuard it.cur then .skipTx
-       else if Gen.nonceDuplicate it.latest.isNone it.cur.nonce (it.latest.getD 0 : Nat) then .skipTx
+       else if Gen.nonceDuplicate (item_latestSelectedTransaction_nil := it.latest.isNone) (item_currentTransactionNonce := it.cur.nonce) (item_latestSelectedTransactionNonce := (it.latest.getD 0 : Nat)) then .skipTx
        else .take) := GenProofs.classify_uses_generated_detectors s consumed it
 
 /-! ### the real selection session is an external, possibly stateful object: the code reads it through a memoising wrapper
